@@ -142,7 +142,9 @@ impl Names {
     }
     /// A fresh identifier unique up to case. `cap` = first letter upper-case (type-like).
     pub fn fresh(&mut self, ch: &mut Ch, prefix: &str, nonascii: u32) -> String {
-        if self.keywords > 0 && ch.chance(self.keywords, 64) {
+        // keyword names are used for module-scope items and members, not for function parameters
+        // (a parameter named like a module-scope item shadows it inside that function)
+        if self.keywords > 0 && prefix != "p" && ch.chance(self.keywords, 64) {
             // type-like names are capitalised (their snake_case form is the keyword)
             let cands: [&str; 3] = if prefix.chars().next().map(|c| c.is_uppercase()).unwrap_or(false) { ["In", "Dyn", "Box"] } else { ["in", "dyn", "box"] };
             let c = *ch.pick(&cands);
